@@ -15,6 +15,9 @@ def scratch_copy():
     return d
 
 
+SEEDS = [None]
+
+
 def run_one(path, props, tier, extra):
     d = scratch_copy()
     try:
@@ -30,10 +33,19 @@ def run_one(path, props, tier, extra):
             os.makedirs(cache, exist_ok=True)
             env["ASYNQ_VERIF_BUILD_CACHE"] = cache
             t0 = time.time()
-            r = subprocess.run([os.path.join(VERIF, "vcheck"), prop, "--tier", tier, "--repo", d, "--no-evidence"] + extra, stdout=subprocess.PIPE, stderr=subprocess.STDOUT, env=env)
-            txt = r.stdout.decode("utf-8", "replace")
-            m = re.findall(r"oracle=(\S+) mechanism=(\S+) build=(\S+)", txt)
-            out[prop] = "exit=%d %.0fs %s" % (r.returncode, time.time() - t0, sorted(set(m))[:4] if m else txt.strip().splitlines()[-2:][0][:200] if txt.strip() else "")
+            codes = []
+            m = []
+            txt = ""
+            for sd in SEEDS:
+                if sd is not None:
+                    env["VERIF_SEED"] = str(sd)
+                r = subprocess.run([os.path.join(VERIF, "vcheck"), prop, "--tier", tier, "--repo", d, "--no-evidence"] + extra, stdout=subprocess.PIPE, stderr=subprocess.STDOUT, env=env)
+                txt = r.stdout.decode("utf-8", "replace")
+                m += re.findall(r"oracle=(\S+) mechanism=(\S+) build=(\S+)", txt)
+                codes.append(r.returncode)
+            rc = 1 if all(c == 1 for c in codes) else (codes[0] if len(set(codes)) == 1 else 0)
+            seeds_note = "" if SEEDS == [None] else " caught on %d/%d seeds" % (sum(1 for c in codes if c == 1), len(codes))
+            out[prop] = "exit=%d %.0fs%s %s" % (rc, time.time() - t0, seeds_note, sorted(set(m))[:4] if m else txt.strip().splitlines()[-2:][0][:200] if txt.strip() else "")
         return path, out
     finally:
         shutil.rmtree(d, ignore_errors=True)
@@ -51,6 +63,8 @@ def main():
             allprops = a.split("=")[1].split(",")
         if a.startswith("--scale="):
             extra += ["--scale", a.split("=")[1]]
+        if a.startswith("--seeds="):
+            SEEDS[:] = [int(x) for x in a.split("=")[1].split(",")]
     paths = []
     for a in args:
         if os.path.isfile(a):
